@@ -40,7 +40,7 @@ func (pass *UndiscriminatedDisjunctionToAny) processDisjunction(visitor *Visitor
 		return def, nil
 	}
 
-	if disjunction.Branches.HasOnlyRefs() {
+	if disjunction.Branches.NonNullTypes().HasOnlyRefs() {
 		if len(disjunction.Discriminator) == 0 || len(disjunction.DiscriminatorMapping) == 0 {
 			anyType := ast.Any(ast.Trail("UndiscriminatedDisjunctionToAny"))
 			anyType.Nullable = def.Nullable
